@@ -6,7 +6,7 @@
 static CC_TreeTable *tt;
 static CC_TreeTableIter it; static int have_it;
 static int sparse;   /* obs=sparse: no content sweep after the operations, only on `observe` */
-static void shim_reset(void) { tt = NULL; have_it = 0; cmp_calls = 0; sparse = 0; ids_reset(); }
+static void shim_reset(void) { tt = NULL; have_it = 0; cmp_calls = 0; sparse = 0; bufkeys = 0; quiet = 0; walk_blocks = 1; karena_n = 0; ids_reset(); }
 
 /* content through the public API: a fresh iterator (no comparator calls) */
 static void obs_abs(void) {
@@ -14,7 +14,7 @@ static void obs_abs(void) {
     if (tt) {
         CC_TreeTableIter i; CC_TreeTableEntry e;
         cc_treetable_iter_init(&i, tt);
-        while (cc_treetable_iter_next(&i, &e) != CC_ITER_END && n < 4096) { ks[n] = VAL(e.key); vs[n] = VAL(e.value); n++; }
+        while (cc_treetable_iter_next(&i, &e) != CC_ITER_END && n < 4096) { ks[n] = kval(e.key); vs[n] = VAL(e.value); n++; }
     }
     O_LIST("keys"); for (size_t j = 0; j < n; j++) o_item(ks[j]); o_end(); o(" ");
     O_LIST("vals"); for (size_t j = 0; j < n; j++) o_item(vs[j]); o_end();
@@ -32,6 +32,8 @@ static void do_op(Cmd *c) {
     if (is_op(c, "new") || is_op(c, "new_default")) {
         int which = (int)kv_u64(c, "cmp", 0);
         sparse = !strcmp(kv_str(c, "obs", ""), "sparse"); ids_reset();
+        bufkeys = !strcmp(kv_str(c, "keys", ""), "buf"); karena_n = 0;      /* keys=buf: see tree_common.h */
+        quiet = !strcmp(kv_str(c, "phys", ""), "quiet"); walk_blocks = !quiet;  /* phys=quiet: checksum instead of the dump */
         tt = NULL; have_it = 0;
         if (is_op(c, "new")) {
             CC_TreeTableConf conf; cc_treetable_conf_init(&conf);
@@ -43,15 +45,15 @@ static void do_op(Cmd *c) {
         o_stat(st); o(" ");
     } else if (!tt) { o("st=- nosession"); o_sep(); o("-"); return;
     } else if (is_op(c, "add")) {
-        st = cc_treetable_add(tt, PTR(pos_u64(c, 0)), PTR(pos_u64(c, 1))); o_stat(st); o(" ");
+        st = cc_treetable_add(tt, KEY(pos_u64(c, 0)), PTR(pos_u64(c, 1))); o_stat(st); o(" ");
     } else if (is_op(c, "get")) {
-        st = cc_treetable_get(tt, PTR(pos_u64(c, 0)), &out); o_stat(st); if (st == CC_OK) o(" out=%llu", VAL(out)); o(" ");
+        st = cc_treetable_get(tt, KEY(pos_u64(c, 0)), &out); o_stat(st); if (st == CC_OK) o(" out=%llu", VAL(out)); o(" ");
     } else if (is_op(c, "contains_key")) {
-        bool b = cc_treetable_contains_key(tt, PTR(pos_u64(c, 0))); o("st=- out=%d ", (int)b);
+        bool b = cc_treetable_contains_key(tt, KEY(pos_u64(c, 0))); o("st=- out=%d ", (int)b);
     } else if (is_op(c, "contains_value")) {
         size_t k = cc_treetable_contains_value(tt, PTR(pos_u64(c, 0))); o("st=- out=%zu ", k);
     } else if (is_op(c, "remove")) {
-        st = cc_treetable_remove(tt, PTR(pos_u64(c, 0)), noout ? NULL : &out); o_stat(st);
+        st = cc_treetable_remove(tt, KEY(pos_u64(c, 0)), noout ? NULL : &out); o_stat(st);
         if (st == CC_OK && !noout) o(" out=%llu", VAL(out)); o(" ");
     } else if (is_op(c, "remove_first")) {
         st = cc_treetable_remove_first(tt, noout ? NULL : &out); o_stat(st);
@@ -62,17 +64,17 @@ static void do_op(Cmd *c) {
     } else if (is_op(c, "remove_all")) {
         cc_treetable_remove_all(tt); o("st=- ");
     } else if (is_op(c, "first_key")) {
-        st = cc_treetable_get_first_key(tt, &out); o_stat(st); if (st == CC_OK) o(" out=%llu", VAL(out)); o(" ");
+        st = cc_treetable_get_first_key(tt, &out); o_stat(st); if (st == CC_OK) o(" out=%llu", kval(out)); o(" ");
     } else if (is_op(c, "last_key")) {
-        st = cc_treetable_get_last_key(tt, &out); o_stat(st); if (st == CC_OK) o(" out=%llu", VAL(out)); o(" ");
+        st = cc_treetable_get_last_key(tt, &out); o_stat(st); if (st == CC_OK) o(" out=%llu", kval(out)); o(" ");
     } else if (is_op(c, "first_value")) {
         st = cc_treetable_get_first_value(tt, &out); o_stat(st); if (st == CC_OK) o(" out=%llu", VAL(out)); o(" ");
     } else if (is_op(c, "last_value")) {
         st = cc_treetable_get_last_value(tt, &out); o_stat(st); if (st == CC_OK) o(" out=%llu", VAL(out)); o(" ");
     } else if (is_op(c, "greater_than")) {
-        st = cc_treetable_get_greater_than(tt, PTR(pos_u64(c, 0)), &out); o_stat(st); if (st == CC_OK) o(" out=%llu", VAL(out)); o(" ");
+        st = cc_treetable_get_greater_than(tt, KEY(pos_u64(c, 0)), &out); o_stat(st); if (st == CC_OK) o(" out=%llu", kval(out)); o(" ");
     } else if (is_op(c, "lesser_than")) {
-        st = cc_treetable_get_lesser_than(tt, PTR(pos_u64(c, 0)), &out); o_stat(st); if (st == CC_OK) o(" out=%llu", VAL(out)); o(" ");
+        st = cc_treetable_get_lesser_than(tt, KEY(pos_u64(c, 0)), &out); o_stat(st); if (st == CC_OK) o(" out=%llu", kval(out)); o(" ");
     } else if (is_op(c, "size")) {
         o("st=- out=%zu ", cc_treetable_size(tt));
     } else if (is_op(c, "foreach_key")) {
@@ -87,13 +89,13 @@ static void do_op(Cmd *c) {
         if (!have_it) o("st=- noiter ");
         else { CC_TreeTableEntry e = { PTR(777777), PTR(777777) };
             st = cc_treetable_iter_next(&it, &e); o_stat(st);
-            if (st == CC_OK) o(" k=%llu out=%llu", VAL(e.key), VAL(e.value)); o(" "); }
+            if (st == CC_OK) o(" k=%llu out=%llu", kval(e.key), VAL(e.value)); o(" "); }
     } else if (is_op(c, "it_remove")) {
         if (!have_it || it.current == tt->sentinel) o("st=- noiter ");   /* precondition: after a next */
         else { st = cc_treetable_iter_remove(&it, noout ? NULL : &out); o_stat(st);
             if (st == CC_OK && !noout) o(" out=%llu", VAL(out)); o(" "); }
     } else if (is_op(c, "observe")) {
-        o("st=- "); obs_abs(); o_sep(); phys(); return;
+        o("st=- "); obs_abs(); o_sep(); walk_blocks = 1; phys(); walk_blocks = !quiet; return;
     } else if (is_op(c, "destroy")) {
         cc_treetable_destroy(tt); tt = NULL; have_it = 0; o("st=- ");
     } else { o("st=- badop "); }
